@@ -311,3 +311,88 @@ def launch_pair(item):
     out["log"] = (d / "exec.log").read_text().split() if (d / "exec.log").exists() else []
     out["state"] = observe(info)
     return out
+
+
+def launch_triple(item):
+    """Three launches of the same job script (failing variant, so that a process that obtains the run lock runs the body):
+    A stops itself at its k-th line event, B is started, A is resumed; whoever owns the run lock stays inside the body while
+    the file `hold` exists.  The first body is let go (it fails and leaves), the second one is held inside its body, and a
+    third process C is launched meanwhile: it must wait for the run lock.  Observed: the body log (start/end sequence)."""
+    import time
+    info = make_job(item["variant"])
+    restore(info, item["state"])
+    d = Path(info["dir"])
+    hold, logp = d / "hold", d / "exec.log"
+    hold.write_text("")
+    devnull = os.open(os.devnull, os.O_WRONLY)
+
+    def log():
+        return logp.read_text().split() if logp.exists() else []
+
+    def wait_for(pred, timeout):
+        t0 = time.time()
+        while time.time() - t0 < timeout:
+            if pred():
+                return True
+            time.sleep(0.001)
+        return pred()
+
+    def spawn(k):
+        pid = os.fork()
+        if pid == 0:
+            try:
+                child_pause(info["script"], k, devnull)
+            finally:
+                os._exit(99)
+        return pid
+    out = {"hang": False, "phases": []}
+    pids = []
+    a = spawn(item["k"])
+    pids.append(a)
+    _, st = os.waitpid(a, os.WUNTRACED)
+    a_stopped = os.WIFSTOPPED(st)
+    exited = {} if a_stopped else {a: os.waitstatus_to_exitcode(st)}
+    b = spawn(0)
+    pids.append(b)
+    time.sleep(item.get("settle", 0.15))
+    if a_stopped:
+        os.kill(a, signal.SIGCONT)
+    # first body: let it go as soon as it has started
+    if wait_for(lambda: log().count("start") >= 1, 8):
+        out["phases"].append("first-body")
+        try:
+            hold.unlink()
+        except FileNotFoundError:
+            pass
+        wait_for(lambda: log().count("end") >= 1, 8)
+        hold.write_text("")
+        # second body (the other process, once it owns the lock): held inside
+        if wait_for(lambda: log().count("start") >= 2, 8):
+            out["phases"].append("second-body-held")
+            c = spawn(0)
+            pids.append(c)
+            # C must not enter the body while the second one is in it
+            if wait_for(lambda: log().count("start") >= 3, item.get("watch", 0.8)):
+                out["phases"].append("third-body-started-while-second-held")
+    try:
+        hold.unlink()
+    except FileNotFoundError:
+        pass
+    deadline = time.time() + 25
+    for pid in pids:
+        while pid not in exited:
+            p, st = os.waitpid(pid, os.WNOHANG)
+            if p:
+                exited[pid] = os.waitstatus_to_exitcode(st)
+            elif time.time() > deadline:
+                out["hang"] = True
+                os.kill(pid, signal.SIGKILL)
+                os.waitpid(pid, 0)
+                exited[pid] = -9
+            else:
+                time.sleep(0.005)
+    os.close(devnull)
+    out["exits"] = [exited[p] for p in pids]
+    out["log"] = log()
+    out["state"] = observe(info)
+    return out
